@@ -435,7 +435,8 @@ def _compare_baseline_results(baseline, results):
     :param results: Current list of issues
     :return: List of unmatched issues
     """
-    return [a for a in results if a not in baseline]
+    # an issue is accounted for only as often as the baseline contains it
+    return [a for a in results if results.count(a) > baseline.count(a)]
 
 
 def _find_candidate_matches(unmatched_issues, results_list):
